@@ -160,8 +160,13 @@ theorem held_modEdges (d : Desc) (m : Nat) (md : ModD) :
       simp only [hp] at he
       split at he
       · rename_i hlt
-        simp [modRefEdges, fld] at he
-        rcases he with rfl | rfl <;> exact Or.inl (Or.inr ⟨p, hlt, rfl⟩)
+        rcases List.mem_append.mp he with he | he
+        · simp [modRefEdges, fld] at he
+          rcases he with rfl | rfl <;> exact Or.inl (Or.inr ⟨p, hlt, rfl⟩)
+        · split at he
+          · simp [modRefEdges, fld] at he
+            rcases he with rfl | rfl <;> exact Or.inr h1
+          · simp at he
       · simp at he
   · simp [fld] at he; subst he; exact Or.inr h2
   · simp [fld] at he; obtain ⟨i, _, rfl⟩ := he; exact Or.inr h2
@@ -342,7 +347,13 @@ theorem noConn_modEdges (d : Desc) (m : Nat) (md : ModD) : (modEdges d m md).all
   · simp [modRefEdges, noConn_fld]
   · cases md.parent with
     | none => simp
-    | some p => simp only; split <;> simp [modRefEdges, noConn_fld]
+    | some p =>
+      simp only
+      split
+      · simp only [List.all_append, Bool.and_eq_true]
+        refine ⟨by simp [modRefEdges, noConn_fld], ?_⟩
+        split <;> simp [modRefEdges, noConn_fld]
+      · simp
   · simp [noConn_fld]
   · simp [List.all_map, noConn_fld]
   · simp [noConn_fld]
